@@ -88,10 +88,14 @@ type negotiatorState struct {
 	// sawFeatures is set once the first features list of the session has been
 	// handled.
 	sawFeatures bool
+
+	// cfg is the stream config of this session: a negotiator may be shared by
+	// many sessions so it must not be kept in the negotiator itself.
+	cfg StreamConfig
 }
 
 func negotiator(f func(*Session, *StreamConfig) StreamConfig) Negotiator {
-	cfg := f(nil, nil)
+	initial := f(nil, nil)
 	return func(ctx context.Context, in, out *stream.Info, s *Session, data interface{}) (mask SessionState, rw io.ReadWriter, restartNext interface{}, err error) {
 		nState, ok := data.(negotiatorState)
 		// If no state was passed in, this is the first negotiate call so make up a
@@ -100,8 +104,10 @@ func negotiator(f func(*Session, *StreamConfig) StreamConfig) Negotiator {
 			nState = negotiatorState{
 				doRestart: true,
 				cancelTee: nil,
+				cfg:       initial,
 			}
 		}
+		cfg := nState.cfg
 
 		// This is a secret internal API that lets us use this same negotiator
 		// implementation in the websocket package without copy/pasting the entire
@@ -208,6 +214,7 @@ func negotiator(f func(*Session, *StreamConfig) StreamConfig) Negotiator {
 		}
 
 		cfg = f(s, &cfg)
+		nState.cfg = cfg
 		mask, rw, err = negotiateFeatures(ctx, s, !nState.sawFeatures, websocket, cfg.Features)
 		nState.sawFeatures = true
 		nState.doRestart = rw != nil
